@@ -212,12 +212,16 @@ Proof.
   intros a b H. lia.
 Qed.
 
+Lemma kings_unfold (p:pos) (c:color) :
+  kings p c = N.of_nat (length (filter (fun s => has p s King c) all_sq)).
+Proof. reflexivity. Qed.
+
 Lemma kings_le1_uniq (p:pos) (c:color) : length (placement p) = 64%nat -> kings p c <= 1 ->
   forall s t, has p s King c = true -> has p t King c = true -> s = t.
 Proof.
   intros Hl Hk s t Hs Ht.
   destruct (N.eq_dec s t) as [Heq|Hne]; [exact Heq|exfalso].
-  unfold kings, count_if in Hk.
+  rewrite kings_unfold in Hk.
   assert (NoDup (filter (fun s => has p s King c) all_sq)) as Hnd
     by (apply NoDup_filter, NoDup_all_sq).
   assert (NoDup [s;t]) as Hnd2.
